@@ -65,9 +65,10 @@ fn kahn_case(n: usize, edges: u32, repeat: usize) -> Result<String, String> {
     for i in 0..n { r.add_node(node(i)); }
     // `repeat` > 1: the same (from, to) pair is recorded several times, with different dependency kinds (a struct that uses a
     // type both as a field and as a generic argument)
-    let kinds = [DependencyType::Field, DependencyType::Generic, DependencyType::Direct];
+    // every kind of dependency orders its two ends; the kind of an edge is chosen from its position so that all five occur
+    let kinds = [DependencyType::Field, DependencyType::Generic, DependencyType::Direct, DependencyType::Import, DependencyType::Variant];
     for k in 0..repeat { for u in 0..n { for v in 0..n { if edges & (1 << (u * n + v)) != 0 {
-        r.add_dependency(Dependency { from: node(u), to: node(v), dependency_type: kinds[k % 3].clone() });
+        r.add_dependency(Dependency { from: node(u), to: node(v), dependency_type: kinds[(k + u * n + v) % 5].clone() });
     } } } }
     let reach_m = reach(n, edges);
     let acyclic = (0..n).all(|u| edges & (1 << (u * n + u)) == 0 && (0..n).all(|v| u == v || !(reach_m[u][v] && reach_m[v][u])));
